@@ -83,3 +83,7 @@ Example ex_history_run : run (word_impl 2) (init (word_impl 2)) [OSet 0 63; OSet
 Proof. vm_compute. reflexivity. Qed.
 Example ex_case_ok : case_ok (Case 2 [(OSet 0 63, VUnit); (OFrom 1 5, VUnit); (OCount 0, VNum 1)]).
 Proof. split; [reflexivity|]. repeat constructor. Qed.
+
+Example ex_enc_run : bits_str [5] = "1010000000000000000000000000000000000000000000000000000000000000"%string
+  /\ idx_list 0 [5; 1; 9223372036854775808] = [0; 2; 64; 191].
+Proof. vm_compute. split; reflexivity. Qed.
